@@ -28,6 +28,11 @@ type childOut struct {
 // exhaustive:false; it never produces a violation).
 type Budget struct{ Quick, Thorough time.Duration }
 
+// Sequential, when set, is run by the parent process before the schedule exploration: an exhaustive
+// sequential enumeration on the same (instrumented) build whose violations and counts are added to
+// the same report. It returns (states, transitions, samples).
+var Sequential func(r *lib.Report, tier string) (int64, int64, []interface{})
+
 // Main is the entry point of an E1 check binary.
 func Main(prop string, scenarios func(tier string) []*vsched.Scenario, budget Budget, assumptions []string) {
 	child := flag.Int("child", -1, "internal: explore scenario #n and print JSON")
@@ -64,6 +69,11 @@ func Main(prop string, scenarios func(tier string) []*vsched.Scenario, budget Bu
 	bud := budget.Quick
 	if tier == "thorough" {
 		bud = budget.Thorough
+	}
+	var seqStates, seqTrans int64
+	var seqSamples []interface{}
+	if Sequential != nil && *only == "" {
+		seqStates, seqTrans, seqSamples = Sequential(r, tier)
 	}
 	dl := time.Now().Add(bud)
 	type job struct{ idx, shard, shards int }
@@ -155,6 +165,13 @@ func Main(prop string, scenarios func(tier string) []*vsched.Scenario, budget Bu
 	}
 	if states == 0 {
 		states = nodes
+	}
+	if Sequential != nil {
+		r.Cov["sequential_part"] = map[string]interface{}{"states": seqStates, "transitions": seqTrans}
+		states += seqStates
+		steps += seqTrans
+		execs += seqTrans
+		samples = append(samples, seqSamples...)
 	}
 	r.Cov["states"] = states
 	r.Cov["schedule_tree_nodes"] = nodes
